@@ -88,6 +88,8 @@ def run(res, tier, seed, shard, nshards):
         cases.append(("large", i))
     for i in range(120 if tier == "quick" else 3000):
         cases.append(("two-connections", i))
+    for i in range(150 if tier == "quick" else 3000):
+        cases.append(("half-closed", i))
 
     def scen():
         for i, c in enumerate(cases):
@@ -98,6 +100,8 @@ def run(res, tier, seed, shard, nshards):
                 stream = build_message(rng, R.TEXT if is_text else R.BINARY, payload, comp, gaps) + R.encode(R.BINARY, b"SENT")
                 call = CALLS[(i // nshards) % len(CALLS)]
                 judge(res, W, stream, call, pf, skip, ("one", is_text, payload, comp, gaps), len(comp) >= 2 or any(g != "none" for g in gaps))
+            elif c[0] == "half-closed":
+                half_closed_case(res, W, rng)
             elif c[0] == "two-connections":
                 two_connections_case(res, W, rng)
             elif c[0] == "multi":
@@ -204,3 +208,49 @@ def two_connections_case(res, W, rng):
         case = {"tag": "two-connections", "connection": ci, "of": n, "stream": c["stream"], "per_fragment": pf}
         for kind, detail, fields in issues:
             res.violation(kind, f"connection {ci} of {n} served alternately (pf={pf}): {detail}", case, per_fragment=pf, skip=0, concurrent_connections=n, **fields)
+
+
+def half_closed_case(res, W, rng):
+    """After the client has sent its close frame the server may still deliver messages before its own close frame
+    (RFC 6455 5.5.1): they are received as usual - through recv(), next() and the for-loop alike - including empty ones."""
+    msgs = []
+    stream = b""
+    for i in range(rng.randrange(2, 6)):
+        is_text = rng.random() < 0.5
+        body = rng.choice([b"", b"", b"x", b"hello", b"%d" % i]) if is_text else rng.choice([b"", b"\x00", b"\xff\xfe"])
+        k = rng.randrange(1, 4)
+        cuts = sorted(rng.randrange(0, len(body) + 1) for _ in range(k - 1))
+        comp = tuple(b - a for a, b in zip([0] + cuts, cuts + [len(body)]))
+        gaps = tuple(rng.choice(["none", "none", "ping", "pongping"]) for _ in range(k + 1))
+        stream += build_message(rng, R.TEXT if is_text else R.BINARY, body, comp, gaps)
+        msgs.append(body.decode() if is_text else body)
+    stream += R.encode(R.CLOSE, b"\x03\xe8")
+    how = rng.choice(["recv", "next", "for-loop"])
+    w, conn, peer = H.connected_ws(after=stream, timeout=2)
+    conn.peer_close()
+    got, exc = [], None
+    try:
+        w.send_close()
+        if how == "for-loop":
+            for m in w:
+                got.append(m)
+                if len(got) > len(msgs) + 2:
+                    break
+        else:
+            while len(got) <= len(msgs):
+                got.append(w.recv() if how == "recv" else next(w))
+    except W.WebSocketConnectionClosedException:
+        pass
+    except Exception as e:  # noqa
+        exc = e
+    from ..core import h64
+    res.case(("half-closed", h64(stream), how), nontrivial=True)
+    res.count("half_closed_cases")
+    res.count("messages_compared", len(msgs))
+    res.count("multi_fragment_cases")
+    case = {"tag": "half-closed", "stream": stream, "how": how, "expected": msgs}
+    # the close frame itself shows up as "" through recv(); everything before it must be there, in order
+    want = list(msgs)
+    if exc is not None or got[:len(want)] != want:
+        res.violation("value-mismatch", f"after send_close(), receiving through {how}: got {got!r} (exception {exc!r}), the server sent {want!r} before its close frame",
+                      case, per_fragment=0, skip=0, call=how, half_closed=True)
